@@ -12,7 +12,7 @@ from math import gcd
 
 from . import pp
 from .bits import Evaluator, BV, fmt_lin
-from .guards import truth_of, as_cmp, closure_info, closure_ret, subst_upvars
+from .guards import truth_of, as_cmp, closure_info, closure_ret, subst_upvars, accessor_field
 from .terms import strip, short, show, cname, split_path, unmut
 
 
@@ -485,7 +485,34 @@ class Sym:
             return None
         if k == "call":
             s = short(t[1])
+            callee = t[1]
+            if callee not in self.prog.bodies:
+                blk0 = self.site_block(t[3]) or {}
+                if (blk0.get("resolved") or "") in self.prog.bodies:
+                    callee = blk0["resolved"]
+            if callee in self.prog.bodies and len(t[2]) == 1:
+                # accessor of an integer field (`fn id(&self) -> u8 { self.0 }`, `impl From<Id> for usize`)
+                fi = accessor_field(self.prog, callee)
+                if fi is not None:
+                    # keep the call's canonical name; its range is the field's invariant (constructor census)
+                    nm = self.name(t)
+                    if nm not in self.sym_box:
+                        bx = self.guess_box(nm + ".field", ("field", t[2][0], fi))
+                        if bx != (None, None):
+                            self.sym_box[nm] = bx
+                    if s not in ("From::from", "Into::into") and "impl std::convert::From<" not in t[1]:
+                        return Poly.sym(nm)
             if s in ("From::from", "Into::into") or "impl std::convert::From<" in t[1]:
+                if callee in self.prog.bodies and len(t[2]) == 1 and accessor_field(self.prog, callee) is not None:
+                    # newtype -> integer: same symbol as the wrapped value's name, range = field invariant
+                    p_ = self.poly(t[2][0])
+                    if p_ is not None and len(p_.syms()) == 1 and p_ == Poly.sym(list(p_.syms())[0]):
+                        nm0 = list(p_.syms())[0]
+                        bx = self.guess_box(nm0 + ".field", ("field", t[2][0], accessor_field(self.prog, callee)))
+                        old_ = self.sym_box.get(nm0, (None, None))
+                        if bx != (None, None) and old_ == (None, None):
+                            self.sym_box[nm0] = bx
+                    return p_
                 return self.poly(t[2][0])
             if s in ("Result::<T, E>::unwrap", "Result::<T, E>::expect"):
                 inner = strip(t[2][0])
